@@ -428,6 +428,9 @@ def run(run, tier, loadcfg):
     run.assumptions = ['len * N does not overflow usize for slices that exist in memory']
     cfgs = ['std-debug'] + (['std-release', 'nostd'] if tier == 'thorough' else [])
     for cfg in cfgs:
-        cx = Ctx(loadcfg(cfg))
+        fx_ = loadcfg(cfg, optional=(cfg == 'nostd'))
+        if fx_ is None:
+            continue
+        cx = Ctx(fx_)
         check_table(run, cx, cfg)
         check_inplace(run, cx, cfg)
